@@ -23,7 +23,10 @@ BATCH_TIMEOUT = {"quick": 300, "thorough": 1500}
 RULE = (
     "cases = triples (off, off, on) of the same seeded scenario: benign and lossy transfers (C01 style), scenarios with hostile "
     "injected datagrams (random bytes, mutated copies of genuine datagrams, truncations), closes with awkward reason phrases, and "
-    "HTTP/3 exchanges with header values that are not UTF-8; os.urandom is seeded so the three runs see the same packet boundaries. "
+    "HTTP/3 exchanges with header values that are not UTF-8; plus pairs (off, on) of whole HTTP/3 conversations between two real "
+    "H3Connections (requests, responses, trailers, server push, WebTransport, datagrams, QPACK-blocked HEADERS and PUSH_PROMISE resumed "
+    "by late encoder-stream data, reordering and loss) whose per-stream outcome, termination state and escaping exceptions must agree; "
+    "os.urandom is seeded so the runs of a case see the same packet boundaries. "
     "non-trivial = the self-check passed and the logged run recorded at least 5 qlog packet events; distinct = hash(scenario kind, "
     "config, op multiset, fate multiset)."
 )
@@ -37,7 +40,8 @@ ASSUMPTIONS = [
 
 
 def floors(tier):
-    return {"triples_compared": 40, "trace_items_compared": 5000, "qlog_documents_checked": 40, "hostile_injections": 50}
+    return {"triples_compared": 40, "trace_items_compared": 5000, "qlog_documents_checked": 40, "hostile_injections": 50,
+            "h3rt_pairs_compared": 20, "h3rt_blocked_resumes_observed": 5, "h3rt_push_promises_received": 5}
 
 
 def plan(tier, seed):
@@ -47,6 +51,9 @@ def plan(tier, seed):
     nh = 12 if tier == "quick" else 200
     for i in range(nh):
         out.insert(i * 3, {"gen": "h3", "seed": base + 900000 + i, "cases": 40})
+    nr = 16 if tier == "quick" else 400
+    for i in range(nr):
+        out.insert(i * 3 + 1, {"gen": "h3rt", "seed": base + 800000 + i, "cases": 6})
     return out
 
 
@@ -361,11 +368,88 @@ def h3(batch, res):
     res.sample({"gen": "h3", "seed": batch["seed"], "cases": batch["cases"]}, limit=1)
 
 
+def h3rt(batch, res):
+    """Whole HTTP/3 conversations (requests, responses, trailers, server push, WebTransport, datagrams; QPACK
+    dynamic table with the encoder stream held back so that header blocks and PUSH_PROMISEs block and resume)
+    between two real H3Connections over a real QUIC pair — the C14 round-trip workload — replayed with the same
+    seed once without and once with a qlog logger on both endpoints. The per-stream HTTP/3 outcome of both
+    endpoints, the termination state and the exceptions escaping handle_event must not depend on logging."""
+    from aioquic.quic.connection import QuicConnection
+    from aioquic.quic.logger import QuicLogger
+
+    from .. import c14_lib as L
+    from .. import puppet
+    from ..common import SeededUrandom
+    from . import c14
+
+    env = L.Env()
+    c14._determinism_shim()
+    rng = random.Random("c20h3rt/%s" % batch["seed"])
+    for ci in range(batch["cases"]):
+        seed = rng.getrandbits(48)
+        case = {"gen": "h3rt", "seed": batch["seed"], "cases": ci + 1}
+        runs = []
+        for logging_on in (False, True):
+            logger = QuicLogger() if logging_on else None
+
+            def factory(opts=None, _l=logger):
+                pair = puppet.HandshakePair(opts)
+                if _l is not None:
+                    pair.ccfg.quic_logger = _l
+                    pair.scfg.quic_logger = _l
+                    pair.client = QuicConnection(configuration=pair.ccfg)
+                return pair
+
+            sub = Result()
+            cap = []
+            su = SeededUrandom(seed)
+            su.install()
+            try:
+                c14._rt_case(env, seed, sub, case, factory, puppet.CLIENT_ADDR, puppet.SERVER_ADDR, capture=cap)
+            finally:
+                su.uninstall()
+            doc_ok = None
+            if logger is not None:
+                try:
+                    json.dumps(logger.to_dict(), allow_nan=False)
+                    doc_ok = True
+                except Exception as exc:
+                    doc_ok = repr(exc)
+            sd = sub.as_dict()
+            raised = sorted(v["signature"] for v in sd["violations"] if "raised" in v["signature"])
+            outcome = [(ep.name, ep.out.norm(), ep.terminated) for ep in cap]
+            runs.append((outcome, raised, doc_ok, sd, cap))
+        res.evaluations += 1
+        res.count("h3rt_pairs_compared")
+        (o0, r0, _d0, sd0, cap0), (o1, r1, d1, sd1, cap1) = runs
+        res.count("trace_items_compared", sum(len(s["items"]) for _n, o, _t in o0 for s in o["streams"].values()))
+        resumes = sum(ep.resumes for ep in cap0)
+        res.count("h3rt_blocked_resumes_observed", resumes)
+        res.count("h3rt_push_promises_received", sum(1 for _n, o, _t in o0 for s in o["streams"].values() for it in s["items"] if it[0] == "P"))
+        if r1 and not r0:
+            res.violation("h3rt:logging-only-exception:" + r1[0], "HTTP/3 handle_event raised only with the qlog logger on, same seed and traffic", case, {"signatures": r1})
+            break
+        if not r0 and o0 != o1:
+            d = first_diff(repr(o0), repr(o1))
+            res.violation("h3rt:events-differ-with-logging", "HTTP/3 outcome differs with logging on (first difference at char %s)" % (d,), case,
+                          {"off": repr(o0)[:600], "on": repr(o1)[:600]})
+            break
+        if d1 not in (None, True):
+            res.violation("h3rt:qlog-not-serialisable", "qlog document of an HTTP/3 conversation is not JSON serialisable: %s" % d1, case, None)
+            break
+        if logging_on:
+            res.count("qlog_documents_checked")
+        res.nontrivial.add(h("h3rt", bool(resumes), len(o0[0][1]["streams"]), len(o0[1][1]["streams"]), cap0[0].terminated is None))
+    res.sample({"gen": "h3rt", "seed": batch["seed"], "cases": batch["cases"]}, limit=1)
+
+
 def run_batch(batch):
     res = Result()
     t0 = time.time()
     if batch["gen"] == "triple":
         triple(batch, res)
+    elif batch["gen"] == "h3rt":
+        h3rt(batch, res)
     else:
         h3(batch, res)
     res.count("cpu_s_" + batch["gen"], round(time.time() - t0, 2))
